@@ -144,7 +144,7 @@ fn date_pic(kind: u8) -> Field {
     }
 }
 
-//@ unit c18_date_single prop=C18,C05,C03,C02 clock=1 chunks=range:0:6 quickn=4 unwind=14 mem=8 timeout=2400 stubs=chrono::Local::now=>crate::verif_support::stub_local_now,crate::util::try_format=>crate::verif_support::stub_try_format bound="Date::parse with the single-field picture given by the parameter (0 DD, 1 MM, 2 YYYY, 3 YYY, 4 YY, 5 Y, 6 DDD), every ASCII text of length <= 4, every current local date 1970..9999 (symbolic clock): missing year/month come from the clock, missing day is 1, short years are completed with the leading digits of the current year; invalid results are errors"
+//@ unit c18_date_single prop=C18,C05,C03,C02 clock=1 chunks=range:0:6 quick=all unwind=14 mem=6 timeout=2400 stubs=chrono::Local::now=>crate::verif_support::stub_local_now,crate::util::try_format=>crate::verif_support::stub_try_format bound="Date::parse with the single-field picture given by the parameter (0 DD, 1 MM, 2 YYYY, 3 YYY, 4 YY, 5 Y, 6 DDD), every ASCII text of length <= 4, every current local date 1970..9999 (symbolic clock): missing year/month come from the clock, missing day is 1, short years are completed with the leading digits of the current year; invalid results are errors"
 fn c18_date_single(kind: u8) {
     let (cy, cm, _cd, _, _, _, _) = any_clock(1970, 9999);
     let (buf, len) = ascii_text::<4>();
@@ -491,7 +491,7 @@ fn c05_ampm_hh12(order: i64) {
     std::mem::forget(fmt);
 }
 
-//@ unit c06_date_ddd prop=C06,C05,C04 clock=1 unwind=14 mem=10 timeout=3000 stubs=chrono::Local::now=>crate::verif_support::stub_local_now,crate::util::try_format=>crate::verif_support::stub_try_format,crate::common::julian2date=>crate::verif_support::ghost_julian2date bound="every date of the current year (symbolic clock year 1970..=9999, every month and day incl. 29 February and 31 December of leap years) with the picture DDD: format gives three digits, parsing them with the same Formatter returns the date, re-formatting reproduces the text"
+//@ unit c06_date_ddd prop=C06 clock=1 unwind=14 mem=10 timeout=3000 stubs=chrono::Local::now=>crate::verif_support::stub_local_now,crate::util::try_format=>crate::verif_support::stub_try_format,crate::common::julian2date=>crate::verif_support::ghost_julian2date bound="every date of the current year (symbolic clock year 1970..=9999, every month and day incl. 29 February and 31 December of leap years) with the picture DDD: format gives three digits, parsing them with the same Formatter returns the date, re-formatting reproduces the text"
 fn c06_date_ddd() {
     let (cy, _, _, _, _, _, _) = any_clock(1970, 9999);
     let m: u32 = kani::any();
